@@ -134,7 +134,14 @@ def check_case(ctx, case, idx):
             return
     got = snapshot(model, X)
     fresh = build(case, final)
-    fresh.fit(X.copy(), quiet=True, seed=case["seed"])
+    try:
+        fresh.fit(X.copy(), quiet=True, seed=case["seed"])
+    except Exception as e:
+        # the history's model holds this count after accepted setter calls; a fresh model with the same count must exist too
+        ctx.violation("concrete", f"a fresh model built with n_sensors={final} cannot be fitted ({type(e).__name__}: {e}) although the "
+                                  f"setter history ended with that count",
+                      {"signature": "setter-history-count-rejected-by-fresh-model", "case": desc, "index": idx})
+        return
     ref = snapshot(fresh, X)
     diffs = [k for k in ("sel", "ns", "rank", "pred", "score") if not same(got[k], ref[k])]
     if diffs:
